@@ -11,7 +11,7 @@ VERUS_UNITS = {
     'U-MP': dict(module='contracts.verus.msgpack_size', min_verified=37, timeout=600,
                  native_search=dict(src='src/msgpack.rs', file='msgpack_search.rs'),
                  props=['C18', 'C04', 'C02', 'C03']),
-    'U-CHK-V': dict(module='contracts.verus.yaml_chunker', min_verified=10, timeout=600,
+    'U-CHK-V': dict(module='contracts.verus.yaml_chunker', min_verified=19, timeout=600,
                     props=['C03', 'C05', 'C04', 'C02', 'C12']),
     'U-ENC-V': dict(module='contracts.verus.yaml_encoding', min_verified=15, timeout=600,
                     props=['C07', 'C02', 'C04', 'C05', 'C12', 'C01']),
@@ -345,7 +345,8 @@ PROPERTIES = {
                     'loop wiring: Verus U-MP-X proves on the verbatim msgpack::transcode, against the proved next_value_size, that the documents offered to the output are exactly mp_split(input): successive complete values, in order, no gap, no overlap, for every input length; Kani U-MP-T runs the same loop against the real rmp_serde constructors), consecutive, non-empty, covering the input; ChunkReader::take_to_offset / trim_to_offset '
                     'return / keep exactly stream[start..o] / stream[o..delivered]. CLI: U-MAIN-V proves one translate call per input path, in order, on the one translator created before the loop. Verus (U-CHK-V) proves Chunker::next on the verbatim code for ALL event histories against an assumed libyaml '
                     'event contract: the k-th Some(Ok(doc)) is exactly stream[start_k..end_k] of the k-th document of the event history (no gap byte, no neighbour byte, kind of its first content event), '
-                    'emitted exactly once and in order, None only after every completed document was emitted; documents of a monotone history are ordered disjoint intervals (theorem).',
+                    'emitted exactly once and in order, None only after every completed document was emitted; documents of a monotone history are ordered disjoint intervals (theorem); '
+                    'yaml::transcode_reader (verbatim, same unit) offers every document the chunker emits to the output exactly once, in order, with exactly its bytes, and has offered all of them when it returns Ok.',
         assumptions=['libyaml event contract (assumed, stated as the stand-in Parser::next_event contract in U-CHK-V): one event per call, marks monotone, within the bytes delivered and on UTF-8 boundaries, '
                      'bytes reach libyaml only through ChunkReader::read, DOCUMENT-END is followed by DOCUMENT-START or STREAM-END', 'termination of the event loop in Chunker::next rests on libyaml reaching a document boundary (not proved)'],
         not_covered=['writeln!/--- framing in json::Output / yaml::Output beyond the framing harnesses (real serializers)', 'Translator keeping one output (a struct field)']),
